@@ -242,6 +242,28 @@ pub fn cases(tier: Tier) -> Vec<FileCase> {
                 }
             }
         }
+        // every value of every one of the first 64 bytes
+        for off in 0..64usize {
+            for m in 0..=255u8 {
+                let mut b = full.clone();
+                if b[off] == m || muts.contains(&m) {
+                    continue;
+                }
+                b[off] = m;
+                v.push(FileCase { label: format!("valid segment with byte {off} set to {m:#04x}"), kind: PathKind::File(b) });
+            }
+        }
+        // every value of the 16-bit version and generation fields together with three declared sizes
+        for field in [12usize, 14] {
+            for val in (0..=65535u32).step_by(251) {
+                for size in [71u32, 72, 4096] {
+                    let mut b = full.clone();
+                    b[8..12].copy_from_slice(&size.to_ne_bytes());
+                    b[field..field + 2].copy_from_slice(&(val as u16).to_ne_bytes());
+                    v.push(FileCase { label: format!("valid segment with declared size {size} and the u16 at offset {field} set to {val}"), kind: PathKind::File(b) });
+                }
+            }
+        }
         // every declared size from 0 to 80 with every file length around it
         for size in 0..=80u32 {
             for len in [16usize, 17, 71, 72, 73, 80] {
